@@ -81,7 +81,35 @@ func c07BuildDirectedDoc() string {
 		fmt.Fprintf(&bigs, `"s%03d"`, k)
 		fmt.Fprintf(&bignums, `%d`, k)
 	}
-	return strings.TrimSuffix(c07DirectedDocSmall, "}") + `,"big":[` + big.String() + `],"bigbad":[` + bad.String() + `],"bigstrs":[` + bigs.String() + `],"bignums":[` + bignums.String() + `]}`
+	// arrays beyond the sizes at which implementations switch to pooled or pre-converted scratch buffers
+	// (512, 1024): 700 and 1300 numbers, each also with one string late in the array; empty objects
+	var huge, hugebad, mid, midbad strings.Builder
+	for i := 0; i < 1300; i++ {
+		if i > 0 {
+			huge.WriteByte(',')
+			hugebad.WriteByte(',')
+		}
+		k := (i*7919 + 13) % 100003
+		fmt.Fprint(&huge, k)
+		if i == 1100 {
+			hugebad.WriteString(`"x"`)
+		} else {
+			fmt.Fprint(&hugebad, k)
+		}
+		if i < 700 {
+			if i > 0 {
+				mid.WriteByte(',')
+				midbad.WriteByte(',')
+			}
+			fmt.Fprint(&mid, k)
+			if i == 650 {
+				midbad.WriteString(`"x"`)
+			} else {
+				fmt.Fprint(&midbad, k)
+			}
+		}
+	}
+	return strings.TrimSuffix(c07DirectedDocSmall, "}") + `,"big":[` + big.String() + `],"bigbad":[` + bad.String() + `],"bigstrs":[` + bigs.String() + `],"bignums":[` + bignums.String() + `],"huge":[` + huge.String() + `],"hugebad":[` + hugebad.String() + `],"mid":[` + mid.String() + `],"midbad":[` + midbad.String() + `],"eo":{},"eo2":{}}`
 }
 
 func c07Directed() []string {
@@ -110,6 +138,25 @@ func c07Directed() []string {
 		"pad_left('ab', `4.0`, '.')", "pad_right('ab', `5e0`, '.')", "pad_left('ab', `0.4e1`)", "[pad_left('ab', `4.0`, '.'), `2` / `3`]", "`2` / `3`", "`1` / `7` * `3`", "`0.1` + `0.2`", "sum(nums) / `7`", "avg(nums) / `3`", "nums[*] | map(&(@ / `3`), @)", "`1e34` + `1`", "`9999999999999999999999999999999999` + `0.5`",
 		"`10` // `3`", "`10` % `3`", "to_number('0.1') * `3`", "abs(`-1` / `3`)", "ceil(`2` / `3`)", "floor(`-2` / `3`)", "`2` / `3` == `0.6666666666666666666666666666666667`", "to_string(`1` / `3`)", "sort([`1` / `3`, `0.3333`])", "max([`2` / `3`, `0.6667`])",
 		"find_first('abcabc', 'c', `1.5`)", "split('a,b', ',', `0.5`)", "pad_left('ab', `2.5`)", "replace('aaa', 'a', 'b', `-1`)", "find_first('abc', 'b', `2.99999999999999999999999999999999999`)", "pad_left('ab', `3.0000000000000000000000000000000000001`)")
+	// the failing and the succeeding paths of the ordering builtins on arrays of 700 / 1300 elements
+	for _, src := range []string{"mid", "huge", "mid[*]", "huge[:600]"} {
+		out = append(out, "sort("+src+") | [@[0], @[-1], length(@)]", "reverse("+src+")[0]", "max("+src+")", "min("+src+")", "sort_by("+src+", &@)[:3]", "max_by("+src+", &@)", "sum("+src+")", "map(&(@ + `1`), "+src+")[:2]")
+	}
+	out = append(out, "sort(midbad)", "sort(hugebad)", "max(midbad)", "min(hugebad)", "sort_by(midbad, &@)", "sort_by(hugebad, &@)", "max_by(hugebad, &@)", "min_by(midbad, &@)", "sum(hugebad)", "avg(midbad)", "sort(hugebad[:1000]) | length(@)", "sort(hugebad[1000:])")
+	// element-wise consumers must not write their results into the array they read
+	for _, w := range wraps {
+		nums := fmt.Sprintf(w, "nums")
+		strs := fmt.Sprintf(w, "strs")
+		recs := fmt.Sprintf(w, "recs")
+		out = append(out, "map(&(@ + `1`), "+nums+")", "map(&[@, @], "+strs+")", "map(&k, "+recs+")", "map(&to_string(@), "+nums+")", nums+" | map(&(@ * `2`), @)", "zip("+nums+", "+nums+")[0]", nums+"[*].[@ + `1`][]", "join('', "+strs+")")
+	}
+	// objects handed on without a copy: merge must build its own result
+	for _, w := range []string{"%s", "(%s)", "%s | @", "[%s][0]", "{a: %s}.a", "not_null(%s)", "%s || objs.b", "%s && {x: 'y'}", "objs.b && %s", "let $x = %s in $x", "label[:1].not_null($.%s)", "to_array(%s)[0]", "[%s] | [0]", "not_null(`null`, %s)", "values({a: %s})[0]"} {
+		for _, o := range []string{"eo", "objs.a", "eo2"} {
+			x := fmt.Sprintf(w, o)
+			out = append(out, "merge("+x+", objs.b)", "merge("+x+", {z: `1`}, objs.a)", "{m: merge("+x+", objs.b), n: length(eo), k: keys(objs.a)}", "merge("+x+", "+x+", {y: `2`}) | length(@)")
+		}
+	}
 	out = append(out, "nested[*].sort(@)", "nested[*].reverse(@)", "nested[].sort_by(@, &@)", "sort(nested[0])", "merge(objs.a, objs.b)", "merge(objs, `{\"c\": 1}`)", "merge(`{\"c\": 1}`, objs.a)", "zip(nums, strs)[0]", "values(objs)[*].p", "from_items(items(objs.a))", "nums[::-1]", "nums[?@ > `5`]", "join(',', strs)", "sort(strs)[0]", "sort(keys(objs))")
 	return out
 }
